@@ -55,12 +55,30 @@ REGIONS = {
     "validator": (SBEPPC + "sbe_schema_validator.hpp", None, ["C08", "C09"]),
     "cppvalidator": (SBEPPC + "sbe_schema_cpp_validator.hpp", None, ["C08", "C07"]),
     "parser": (SBEPPC + "schema_parser.hpp", None, ["C08", "C09"]),
+    # generators: cheap, discriminating checks first (a killed mutant stops the row)
+    "messages_compiler": (SBEPPC + "messages_compiler.hpp", None, ["C07", "C04", "C01", "C19", "C17", "C05", "C03", "C11"]),
+    "normal_accessors": (SBEPPC + "normal_accessors.hpp", None, ["C07", "C01", "C02", "C11"]),
+    "types_compiler": (SBEPPC + "types_compiler.hpp", None, ["C07", "C16", "C18", "C19", "C01", "C15"]),
+    "traits_generator": (SBEPPC + "traits_generator.hpp", None, ["C07", "C18", "C05"]),
+    "tags_generator": (SBEPPC + "tags_generator.hpp", None, ["C07", "C18"]),
+    "names_generator": (SBEPPC + "names_generator.hpp", None, ["C07", "C18"]),
+    "utils": (SBEPPC + "utils.hpp", None, ["C07", "C08", "C16", "C01", "C18"]),
+    "fs": (SBEPPC + "fs_provider.hpp", None, ["C20"]),
+    "main": (SBEPPC + "main.cpp", None, ["C20", "C09", "C08"]),
 }
 
 SWAPS = [(" <= ", " < "), (" < ", " <= "), (" >= ", " > "), (" > ", " >= "), (" == ", " != "), (" != ", " == "),
          (" + ", " - "), (" - ", " + "), (" && ", " || "), (" || ", " && "), (" += ", " -= "), (" -= ", " += "),
          ("++;", "--;"), (" * ", " + "), (" | ", " & "), (" & ", " | "), (" << ", " >> "), ("(!", "("), ("return !", "return "),
-         (" - 1", " - 0"), (" + 1", " + 2")]
+         (" - 1", " - 0"), (" + 1", " + 2"),
+         # tokens of the code templates inside the generators
+         ("c.template get_value", "c.template get_last_value"), ("c.template get_last_value", "c.template get_value"),
+         ("c.template set_value", "c.template set_last_value"), ("c.template set_last_value", "c.template set_value"),
+         ("get_static_field_view", "get_last_static_field_view"), ("get_last_static_field_view", "get_static_field_view"),
+         ("get_first_group_view", "get_group_view"), ("get_first_data_view", "get_data_view"),
+         ("get_first_dynamic_field_view", "get_dynamic_field_view"),
+         ("enable_if_cursor_writeable_t", "enable_if_cursor_compatible_t"), ("enable_if_writable_t<Byte", "enable_if_convertible_t<Byte, Byte"),
+         ("{offset}", "{absolute_offset}"), ("{absolute_offset}", "{offset}"), ("required_base<", "optional_base<"), ("optional_base<", "required_base<")]
 
 
 def function_ranges(region):
